@@ -34,7 +34,7 @@ impl Lat {
     pub const ID: Lat = Lat { ox: 0, oy: 0, sh: 0 };
     #[inline]
     pub fn scale(&self) -> f64 {
-        2f64.powi(self.sh)
+        crate::q::pow2(self.sh)
     }
     #[inline]
     pub fn c(&self, p: IP) -> Coord<f64> {
@@ -43,7 +43,7 @@ impl Lat {
     }
     /// exact preimage of an f64 result coordinate (None if it does not fit Q comfortably)
     pub fn inv(&self, c: Coord<f64>) -> Option<P> {
-        let s = 2f64.powi(-self.sh);
+        let s = crate::q::pow2(-self.sh);
         // dividing by a power of two is exact unless it underflows/overflows; lattice values never do
         let (x, y) = (c.x * s, c.y * s);
         if x * self.scale() != c.x || y * self.scale() != c.y {
